@@ -20,7 +20,9 @@ RULE = ("(b) BFS over histories of the request-frame alphabet (initiate uploads 
         "empty last}, block initiates, client abort, ccs 7, short frames), states de-duplicated on the real server's "
         "(buffer, toggle, multiplexer, store, last error); after every transition response count/shape/content and the "
         "store are compared with the reference; every new state is probed with 4 complete strict transfers. (a) matrix: "
-        "every data type x value source x precedence x length 0..L, each uploaded and downloaded in 3 framings. "
+        "every data type x value source x precedence x length 0..L, each uploaded and downloaded in 3 framings. (c) address "
+        "pairs: every ordered pair of 20 addresses chosen to collide under common (index, sub-index) foldings (2^k index ratios, "
+        "low byte vs sub-index, sums, sub-index 255, three missing entries) x {read-read, write-read, read-write-read}. "
         "non-trivial = histories of length >= 2 plus matrix cases with a segmented transfer or a precedence pair")
 ASSUMPTIONS = [
     "out-of-sequence requests may be answered by an abort or by a frame with the matching server command specifier, but must not change the store",
